@@ -131,7 +131,9 @@ def finish(ctx, level_explanation, rule_text, trusted=None, write=True):
         "seed": ctx.seed,
         "level": "other",
         "coverage": cov,
-        "assumptions": ctx.assumptions,
+        "assumptions": list(ctx.assumptions) + list(trusted or []) + [
+            "decides the structural rules named in coverage.rule (necessary conditions), not the behaviour for every input",
+            "facts come from rustc's own type-checked HIR/MIR of /repo's working tree at check time (dev profile, cfg(test) off)"],
         "wall_s": round(time.time() - ctx.t0, 3),
         "violations": len(violations),
     }
